@@ -46,3 +46,19 @@ Example C18_nonvacuous :
   Forall key_ok h /\ st_get (st_run true h) [107] = Some [7] /\ st_get (st_run true h) [97] = None /\
   st_keys (st_run true h) [] = [[98]; [107]].
 Proof. exact storage_nonvacuous. Qed.
+
+(** Two Sets of one key at the same time.  One after the other — /repo serialises the writes of the
+    file storage (repair ea831b1) — the key holds the second value in full; ... *)
+Theorem C18_sets_one_after_the_other : forall d n v1 v2,
+  fs_get (apply_ops d (set_ops true n v1 ++ set_ops true n v2)) n = Some v2.
+Proof. exact sets_one_after_the_other. Qed.
+Print Assumptions C18_sets_one_after_the_other.
+
+(** ... overlapping, both go through the one temp file, and there is an interleaving of their
+    file-system operations after which the key holds neither value (the short one followed by the
+    tail of the long one): what the implementation-side runs `CS` look for. *)
+Theorem C18_refuted_overlapping_sets :
+  let k := [107] in let long := [1; 2; 3; 4; 5; 6] in let short := [9] in
+  exists l, merge l (set_ops true k long) (set_ops true k short) /\
+            fs_get (apply_ops [] l) k = Some [9; 2; 3; 4; 5; 6].
+Proof. exact overlapping_sets_refuted. Qed.
